@@ -22,6 +22,8 @@ func init() {
 }
 
 func runC01(c *core.Ctx) {
+	c.Rule("TUPLE1", "a parsed value tuple stays a tuple for every length (x IN (e) is a one-element list)")
+	checkTupleTranslation(c, "TUPLE1")
 	c.Rule("PARSECOV", "no clause the grammar accepts is silently ignored by the parser")
 	checkParserCoverage(c, "PARSECOV")
 	ids := typeIDs(c.Prog)
